@@ -228,6 +228,31 @@ static Cells zt(Cells a)
     return a;
 }
 
+
+// ---------------------------------------------------------------------------------------------
+// exact-fit probes (sanitizer builds only): the same calls on separately allocated buffers of exactly the size
+// the C standard requires of the caller, so that a read or write one element past a valid argument - which the
+// guard cells of a Block cannot see when it is a read - lands in an AddressSanitizer red zone.  Nothing is logged:
+// the results were already judged on the Block run of the same call; only the memory observer speaks here.
+// ---------------------------------------------------------------------------------------------
+#if defined(__SANITIZE_ADDRESS__)
+    #define VH_EXACT_PROBES 1
+template <typename C>
+struct Exact {
+    C* p;
+    Exact(Cells const& m, size_t n) : p(static_cast<C*>(std::malloc(n * sizeof(C))))
+    {
+        for (size_t i = 0; i < n; ++i) { p[i] = F<C>::from_cell(i < m.size() ? m[i] : FILL); }
+    }
+    Exact(Exact const&) = delete;
+    ~Exact() { std::free(p); }
+};
+template <typename T>
+static void keep(T const& v)
+{
+    asm volatile("" : : "g"(&v) : "memory");
+}
+#endif
 // ---------------------------------------------------------------------------------------------
 // call lists per vector kind
 // ---------------------------------------------------------------------------------------------
@@ -265,6 +290,43 @@ static void do_pair(Cells const& a, Cells const& b, Cells const& ns)
             call<C>("memcpy", 0, fill(n), bz, 0, 0, false, n, 0, [&](B& k, C* x, C* y) { return k.off(X::mcpy(x, y, size(n))); });
         }
     }
+#ifdef VH_EXACT_PROBES
+    {
+        Exact<C> ea(az, size(la + 1)), eb(bz, size(lb + 1));
+        keep(X::cmp(ea.p, eb.p));
+        keep(X::spn(ea.p, eb.p));
+        keep(X::cspn(ea.p, eb.p));
+        keep(X::pbrk((C const*)ea.p, (C const*)eb.p));
+        keep(X::str((C const*)ea.p, (C const*)eb.p));
+        Exact<C> d1(fill(lb + 1), size(lb + 1));
+        keep(X::cpy(d1.p, eb.p));
+        Exact<C> d2(az, size(la + lb + 1));
+        keep(X::cat(d2.p, eb.p));
+    }
+    for (long n : ns) {
+        long const sa = std::min(n, la + 1), sb = std::min(n, lb + 1);
+        {
+            Exact<C> ea(az, size(sa)), eb(bz, size(sb));
+            keep(X::ncmp(ea.p, eb.p, size(n)));
+        }
+        {
+            Exact<C> d(fill(n), size(n)), eb(bz, size(sb));
+            keep(X::ncpy(d.p, eb.p, size(n)));
+        }
+        {
+            Exact<C> d(az, size(la + std::min(n, lb) + 1)), eb(bz, size(sb));
+            keep(X::ncat(d.p, eb.p, size(n)));
+        }
+        if (n <= std::min(la, lb) + 1) {
+            Exact<C> ea(az, size(n)), eb(bz, size(n));
+            keep(X::mcmp(ea.p, eb.p, size(n)));
+        }
+        if (n <= lb + 1) {
+            Exact<C> d(fill(n), size(n)), eb(bz, size(n));
+            keep(X::mcpy(d.p, eb.p, size(n)));
+        }
+    }
+#endif
 }
 
 template <typename C>
@@ -290,6 +352,23 @@ static void do_one(Cells const& a, Cells const& cs, Cells const& ns)
             call<C>("memset", 0, fill(n), none, 0, 0, false, n, c, [&](B& k, C* x, C*) { return k.off(X::mset(x, c, size(n))); });
         }
     }
+#ifdef VH_EXACT_PROBES
+    {
+        Exact<C> ea(az, size(la + 1));
+        keep(X::len(ea.p));
+        for (long c : cs) {
+            keep(X::chr((C const*)ea.p, c));
+            keep(X::rchr((C const*)ea.p, c));
+            for (long n : ns) {
+                if (n <= la + 1) {
+                    Exact<C> en(az, size(n));
+                    keep(X::mchr((C const*)en.p, c, size(n)));
+                    keep(X::mset(en.p, c, size(n)));
+                }
+            }
+        }
+    }
+#endif
     // the second argument is a suffix of (or the same as) the first: both pointers into one object
     for (long i = 0; i <= la; ++i) {
         call<C>("strcmp", 0, az, none, 0, i, true, 0, 0, [](B&, C* x, C* y) { return sign(X::cmp(x, y)); });
